@@ -10,6 +10,8 @@ R4 per-request temporaries (no_open / no_opendir) are never inserted into the ha
    create is guarded by the negotiated toggle that release uses
 R5 handle numbers come from the single counter
 R6 lookup references (which pin inode objects and their descriptors) are returned or given back on every path (C08.R1/R2)
+R3 (cont.) directory-position records are stored only under the runtime opendir mode; InodeMap/InodeStore clear empty every map
+R6 (cont.) give-back on entry.inode (C08.R1)
 """
 from pyfbr import core, vf
 from rules import common
@@ -310,3 +312,4 @@ META = {
             "per-request temporaries never enter the table; directory-position records are stored only under the negotiated (runtime) opendir mode.",
     "note": "Not decided: descriptor counts after arbitrary histories or injected EMFILE; liveness of inode objects (C08).",
 }
+META["text"] += " " + 'Also: directory-position records only in opendir mode; clear() empties every map; give-back on entry.inode.'
